@@ -17,6 +17,9 @@ Section Proof.
   Notation exec := (exec leafval prim nameval).
   Notation run_stmt := (run_stmt leafval prim nameval).
   Notation store_events := (store_events leafval prim).
+  Notation eval_operand := (eval_operand leafval prim).
+  Notation eval_operands := (eval_operands leafval prim).
+  Notation eval_nary := (eval_nary leafval prim).
 
   Lemma eval_prim1 t a : eval (Prim1 t a) = let '(va, ea) := eval a in (prim t [va], ea ++ [EPrim t [va]]).
   Proof. reflexivity. Qed.
@@ -217,6 +220,51 @@ Section Proof.
     - destruct H0 as [HQ HP]. apply P_cmp; auto. intros op b E. eapply HP; eauto.
     - split; [apply Q_end|]. intros op b r E. discriminate.
     - destruct H0 as [HQ HP]. split; [apply Q_more; auto|]. intros op' b' r' E. inversion E; subst. auto.
+  Qed.
+
+  (* ---- n-ary forms *)
+  Lemma operands_correct : forall os rest stk log fuel,
+    exec (length (flat_map compile_operand os) + fuel) (flat_map compile_operand os ++ rest) stk log =
+    exec fuel rest (rev (fst (eval_operands os)) ++ stk) (log ++ snd (eval_operands os)).
+  Proof.
+    induction os as [|o r IH]; intros rest stk log fuel.
+    - simpl. rewrite app_nil_r. reflexivity.
+    - cbn [flat_map eval_operands]. destruct o as [e|k]; cbn [compile_operand eval_operand].
+      + rewrite <- app_assoc, app_length, <- Nat.add_assoc.
+        rewrite (compile_correct e (flat_map compile_operand r ++ rest) stk log (length (flat_map compile_operand r) + fuel)).
+        rewrite IH. destruct (eval e) as [v ev]. destruct (eval_operands r) as [vs es]. cbn [fst snd rev].
+        rewrite <- !app_assoc. reflexivity.
+      + cbn [app length Nat.add exec]. rewrite IH. destruct (eval_operands r) as [vs es]. cbn [fst snd rev].
+        cbn [app]. rewrite <- ?app_assoc. reflexivity.
+  Qed.
+
+  Lemma pop_args_rev vs stk : pop_args (length vs) (rev vs ++ stk) = Some (vs, stk).
+  Proof.
+    unfold pop_args.
+    assert (E : Nat.leb (length vs) (length (rev vs ++ stk)) = true) by (apply Nat.leb_le; rewrite app_length, rev_length; lia).
+    rewrite E. f_equal. f_equal.
+    - replace (length vs) with (length (rev vs)) by apply rev_length.
+      rewrite firstn_app, Nat.sub_diag, firstn_all. cbn [firstn]. rewrite app_nil_r. apply rev_involutive.
+    - replace (length vs) with (length (rev vs)) by apply rev_length.
+      rewrite skipn_app, Nat.sub_diag, skipn_all. reflexivity.
+  Qed.
+
+  Lemma eval_operands_length os : length (fst (eval_operands os)) = length os.
+  Proof.
+    induction os as [|o r IH]; [reflexivity|]. cbn [eval_operands]. destruct (eval_operand o). destruct (eval_operands r).
+    cbn [fst length] in *. lia.
+  Qed.
+
+  (* the code of an n-ary form evaluates the operands once each, in emission order, then applies the primitive *)
+  Theorem compile_nary_correct tag os : forall rest stk log fuel,
+    exec (length (compile_nary tag os) + fuel) (compile_nary tag os ++ rest) stk log =
+    exec fuel rest (fst (eval_nary tag os) :: stk) (log ++ snd (eval_nary tag os)).
+  Proof.
+    intros rest stk log fuel. unfold compile_nary, eval_nary.
+    rewrite <- app_assoc, app_length. cbn [length app]. rewrite <- Nat.add_assoc.
+    rewrite operands_correct. pose proof (eval_operands_length os) as L.
+    destruct (eval_operands os) as [vs es]. cbn [fst snd] in *.
+    cbn [Nat.add exec]. rewrite <- L, pop_args_rev. rewrite <- app_assoc. reflexivity.
   Qed.
 
   (* a whole expression, run from an empty stack and log *)
